@@ -39,7 +39,10 @@ RULE = ("seeded batches of ~10 sub-cases, each batch run in a fresh python under
         "~15% malformed stream (unknown / out-of-domain / too many variables, wrong arity, shape "
         "mismatch), bad slicing steps also on ~6% of the well-formed steps, and ~10% exception-focused "
         "sub-cases (well-formed non-conditional relation keeping its variables, three kinds of malformed "
-        "calls: missing / extra / out-of-domain / unknown). non-trivial = at least one slicing step or >= 2 variables; distinct = distinct "
+        "calls: missing / extra / out-of-domain / unknown). Slicing TREES: on valid chains ~50% of the "
+        "intermediate relations are probed again AFTER all later slices were taken, and in ~40% a second, "
+        "different slice is taken from an intermediate relation and probed (M_RelKinds2: the functional model "
+        "predicts that slicing never changes the sliced relation). non-trivial = at least one slicing step or >= 2 variables; distinct = distinct "
         "sub-case JSON")
 MODELLED = ("all 8 relation kinds, construction (variable->argument mapping), the five call forms, slice "
             "and dimensions are modelled (M_RelKinds.v). Theorems (all orders of the variable list, all "
